@@ -348,11 +348,18 @@ class Check:
             self.bins[key] = build_harness(profile, features)
         return self.bins[key]
 
+    def tool_error(self, msg):
+        raise ToolError(msg)
+
     def model_check(self, module, cfg=None, workers=4, timeout=3600, expect_ok=True, extra=None, xmx="8g"):
         r = tlc_mc(module, cfg, workers, timeout, extra=extra, workbase=self.work, xmx=xmx)
         self.mc.append(r)
         log("MC %s/%s: %d distinct states, %d generated, %.1fs, violations=%s" % (
             module, r["cfg"], r["states"], r["generated"], r["wall_s"], r["violations"]))
+        if r["violations"] and expect_ok:
+            # the models are written from the specification side and do not depend on the tree under
+            # test: a violated model invariant is an error in the specification, never a verdict
+            raise ToolError("model %s/%s violates %s:\n%s" % (module, r["cfg"], r["violations"], r.get("counterexample", "")[:2000]))
         return r
 
     def generate(self, module, cfg, num, depth, seed=None, timeout=900):
